@@ -147,6 +147,62 @@ def search_sum_rules(chk, thorough):
         chk.search_case("nlo_relations", worst <= 1e-9, what=f"nf={nf}: C3q - C2q != -2CF(1+z) or Delta C_q != C3q (max {worst})", data=d)
 
 
+def search_sum_rules_on_kernels(chk, thorough):
+    """the same rules on what a run assembles: in every kernel list the real Combiner builds for a
+    charged-current F2 / F3 observable (light, total and flavour-tagged ones), the non-singlet kernel
+    whose weights are odd under q <-> qbar multiplies (q - qbar): its coefficient function has the
+    Adler (F2) resp. Gross-Llewellyn-Smith (F3) first moment, order by order"""
+    import yadism
+    from yadism.coefficient_functions import Combiner
+
+    from .. import cards
+
+    max_o = 3 if thorough else 2
+    cache = {}
+    plans = [("ZM-VFNS", 4, 10.0), ("ZM-VFNS", 4, 100.0), ("FFNS", 4, 30.0)] + ([("ZM-VFNS", 4, 1e5), ("FFNS", 5, 50.0)] if thorough else [])
+    for fns, nfff, Q2 in plans:
+        names = [f"{k}_{f}" for k in ("F2", "F3") for f in ("light", "total", "charm", "bottom")]
+        for proj in ("neutrino", "positron") if thorough else ("neutrino",):
+            try:
+                runner = yadism.Runner(cards.theory(PTO=max_o, FNS=fns, NfFF=nfff), cards.obs({n_: [dict(x=0.1, Q2=Q2)] for n_ in names}, prDIS="CC", ProjectileDIS=proj))
+            except Exception as e:  # noqa
+                chk.search_case("sum_rules_on_assembled_kernels", False, what=f"CC {fns} Q2={Q2}: {type(e).__name__}: {e}"[:200], data=dict(FNS=fns, Q2=Q2))
+                continue
+            for name in names:
+                esf = runner.observables[name].elements[0]
+                try:
+                    comb = Combiner(esf)
+                    elems = comb.collect_elems()
+                except Exception:
+                    continue
+                for k in elems:
+                    mod = type(k.coeff).__module__
+                    cname = type(k.coeff).__name__
+                    if ".light." not in mod or "NonSinglet" not in cname:
+                        continue
+                    qs = sorted({abs(p_) for p_ in k.partons if p_ != 21})
+                    if not qs or not all(abs(k.partons.get(q_, 0.0) + k.partons.get(-q_, 0.0)) <= 1e-14 * max(abs(k.partons.get(q_, 0.0)), 1e-300) for q_ in qs):
+                        continue  # not odd under q <-> qbar
+                    rule, expected, tol = ("Adler", lambda nf, o: 0.0, {1: 1e-9, 2: 2e-3, 3: 0.3}) if name.startswith("F2") else ("GLS", ns_series, {1: 1e-9, 2: 3e-2, 3: 0.3})
+                    nf = int(k.coeff.nf)
+                    for o in range(1, max_o + 1):
+                        if not k.has_order(o):
+                            continue
+                        key = (mod, cname, nf, o)
+                        if key not in cache:
+                            try:
+                                rsl = k.coeff[o]()
+                                cache[key] = None if rsl is None else first_moment(rsl)
+                            except Exception as e:  # noqa
+                                cache[key] = e
+                        m1 = cache[key]
+                        if m1 is None:
+                            continue
+                        d = dict(rule=rule, obs=name, FNS=fns, Q2=Q2, projectile=proj, kernel=mod.split(".")[-1] + "." + cname, nf=nf, order=o, first_moment=None if isinstance(m1, Exception) else m1, expected=expected(nf, o), tolerance=tol[o])
+                        ok = not isinstance(m1, Exception) and abs(m1 - expected(nf, o)) <= tol[o]
+                        chk.search_case("sum_rules_on_assembled_kernels", ok, what=f"{rule}: {name} CC {fns} Q2={Q2}: the kernel weighting (q - qbar) is {d['kernel']} with first moment {m1} at a_s^{o} instead of {expected(nf, o)}", data=d, sample=d if name == "F2_charm" and o == 2 else None)
+
+
 def run(tier):
     chk = common.Check("C04", tier)
     thorough = tier == "thorough"
@@ -161,6 +217,7 @@ def run(tier):
     corr_kernels.run_kernels(chk, r, 30 if thorough else 6, report=sub, stream="nlo_kernel_translation")
     search_closed_forms(chk, r)
     search_sum_rules(chk, thorough)
+    search_sum_rules_on_kernels(chk, thorough)
     chk.assumptions += [
         "PARTIAL for the sum rules. Proved: all seven NLO closed forms for all 0<z<1 and all nf on the terms regenerated from the source (and the class -> kernel/coefficients table read from the live classes), GLS(NLO) - Adler(NLO) = -4 exactly, Bjorken(NLO) = GLS(NLO), the plus-distribution has no first moment. The value of the Adler moment at NLO needs int_0^1 ln z/(1-z) = -pi^2/6 (not in Mathlib) and the NNLO/N3LO coefficients are fitted parametrisations: the sum rules are evaluated numerically on the real functions, with tolerances equal to the published accuracy of the parametrisations (2e-3 / 0.3 on the Adler moment, 3e-2 / 0.3 on GLS/Bjorken against values of O(50) / O(1000))",
         "the non-singlet GLS coefficient is compared with the Larin-Vermaseren series without the light-by-light (d_abc) term, which yadism carries in a separate flavour class",
